@@ -35,11 +35,62 @@ def _base_table(entity):
     return _table_name(entity)
 
 
+# Selective tracing: a harness may run a backend method natively (CrossHair NoTracing) so that SQLAlchemy's clause
+# construction is not traced; SELECTIVE then makes the evaluator resume tracing wherever row values (possibly symbolic) are
+# touched.  Outside an analysis (self-tests, replays) SELECTIVE stays False and everything is plain Python.
+SELECTIVE = False
+
+
+def _resume(fn):
+    def wrapper(*a, **k):
+        if SELECTIVE:
+            from crosshair.tracers import ResumedTracing, is_tracing
+            if not is_tracing():
+                with ResumedTracing():
+                    return fn(*a, **k)
+        return fn(*a, **k)
+    wrapper.__name__ = fn.__name__
+    return wrapper
+
+
+def run_selective(thunk):
+    """Run thunk natively with the evaluator tracing selectively (only inside a CrossHair analysis)."""
+    global SELECTIVE
+    try:
+        from crosshair.tracers import NoTracing, is_tracing
+    except ImportError:
+        return thunk()
+    if not is_tracing():
+        return thunk()
+    SELECTIVE = True
+    try:
+        with NoTracing():
+            return thunk()
+    finally:
+        SELECTIVE = False
+
+
+@_resume
 def truth(v):
     return v is True or (v is not None and v is not False and bool(v))
 
 
 _CMP = {O.eq: operator.eq, O.ne: operator.ne, O.lt: operator.lt, O.le: operator.le, O.gt: operator.gt, O.ge: operator.ge}
+
+
+@_resume
+def _eq(a, b):
+    return bool(a == b)
+
+
+@_resume
+def _cmp(op, a, b):
+    return bool(_CMP[op](a, b))
+
+
+@_resume
+def _any_eq(left, vals):
+    return any(left == v for v in vals)
 
 
 def ev(c, env):
@@ -87,16 +138,16 @@ def ev(c, env):
                 vals = [ev(x, env) for x in getattr(c.right, "clauses", getattr(getattr(c.right, "element", None), "clauses", []))]
             if left is None:
                 return None
-            r = any(left == v for v in vals)
+            r = _any_eq(left, vals)
             return r if c.operator is O.in_op else (not r)
         right = ev(c.right, env)
         if c.operator in (O.is_, O.is_not):
-            same = (left is None and right is None) or (left is not None and right is not None and left == right)
+            same = (left is None and right is None) or (left is not None and right is not None and _eq(left, right))
             return same if c.operator is O.is_ else (not same)
         if left is None or right is None:
             return None
         if c.operator in _CMP:
-            return _CMP[c.operator](left, right)
+            return _cmp(c.operator, left, right)
         raise NotImplementedError("binary operator %r" % (c.operator,))
     if hasattr(c, "table") and hasattr(c, "key"):
         row = env.get(c.table.name, "<absent>")
@@ -156,6 +207,8 @@ class FakeQuery:
     def filter_by(self, **kw):
         q = self._clone()
         ent = self.entities[0]
+        if not hasattr(ent, "__table__") and hasattr(ent, "class_"):
+            ent = ent.class_  # query(Model.column).filter_by(...) refers to the column's model
         for k, v in kw.items():
             q.conds.append(getattr(ent, k) == v)
         return q
@@ -277,12 +330,13 @@ def _stable_sort(items, key, desc):
     return [it for _, it in out]
 
 
+@_resume
 def _lt(a, b):
     if a is None:
         return b is not None
     if b is None:
         return False
-    return a < b
+    return bool(a < b)
 
 
 class FakeSession:
